@@ -378,4 +378,312 @@ def pieWrappedDebug : Backend → Bool
   | .v3lc => false
   | .v4 => false
   | .v4s => false
+def forbiddenImpls : List (String × Bool) := [
+  ("Key<v1,Local>: Into<[u8;32]>", false),
+  ("Key<v1,Local>: Into<[u8;48]>", false),
+  ("Key<v1,Local>: Into<[u8;64]>", false),
+  ("Key<v1,Local>: Into<Vec<u8>>", false),
+  ("Key<v1,Local>: Into<Box<[u8]>>", false),
+  ("Key<v1,Local>: Into<String>", false),
+  ("Key<v1,Local>: AsRef<[u8]>", false),
+  ("Key<v1,Local>: Borrow<[u8]>", false),
+  ("Key<v1,Local>: Deref", false),
+  ("Key<v1,Local>: ToString", false),
+  ("Key<v1,Local>: Hash", false),
+  ("Key<v1,Local>: LowerHex", false),
+  ("&Key<v1,Local>: Into<Vec<u8>>", false),
+  ("&Key<v1,Local>: IntoIterator", false),
+  ("Key<v1,Secret>: Into<[u8;32]>", false),
+  ("Key<v1,Secret>: Into<[u8;48]>", false),
+  ("Key<v1,Secret>: Into<[u8;64]>", false),
+  ("Key<v1,Secret>: Into<Vec<u8>>", false),
+  ("Key<v1,Secret>: Into<Box<[u8]>>", false),
+  ("Key<v1,Secret>: Into<String>", false),
+  ("Key<v1,Secret>: AsRef<[u8]>", false),
+  ("Key<v1,Secret>: Borrow<[u8]>", false),
+  ("Key<v1,Secret>: Deref", false),
+  ("Key<v1,Secret>: ToString", false),
+  ("Key<v1,Secret>: Hash", false),
+  ("Key<v1,Secret>: LowerHex", false),
+  ("&Key<v1,Secret>: Into<Vec<u8>>", false),
+  ("&Key<v1,Secret>: IntoIterator", false),
+  ("Key<v1,PkeSecret>: Into<[u8;32]>", false),
+  ("Key<v1,PkeSecret>: Into<[u8;48]>", false),
+  ("Key<v1,PkeSecret>: Into<[u8;64]>", false),
+  ("Key<v1,PkeSecret>: Into<Vec<u8>>", false),
+  ("Key<v1,PkeSecret>: Into<Box<[u8]>>", false),
+  ("Key<v1,PkeSecret>: Into<String>", false),
+  ("Key<v1,PkeSecret>: AsRef<[u8]>", false),
+  ("Key<v1,PkeSecret>: Borrow<[u8]>", false),
+  ("Key<v1,PkeSecret>: Deref", false),
+  ("Key<v1,PkeSecret>: ToString", false),
+  ("Key<v1,PkeSecret>: Hash", false),
+  ("Key<v1,PkeSecret>: LowerHex", false),
+  ("&Key<v1,PkeSecret>: Into<Vec<u8>>", false),
+  ("&Key<v1,PkeSecret>: IntoIterator", false),
+  ("SealedToken<v1,Local>: Deref", false),
+  ("SealedToken<v1,Public>: Deref", false),
+  ("SealedToken<v1,Local>: AsRef<Rich>", false),
+  ("SealedToken<v1,Public>: AsRef<Rich>", false),
+  ("SealedToken<v1,Public>: Borrow<Rich>", false),
+  ("SealedToken<v1,Public>: Into<Rich>", false),
+  ("UnsealedToken<v1,Local>: ToString", false),
+  ("UnsealedToken<v1,Public>: Into<String>", false),
+  ("UnsealedToken<v1,Local>: Into<Vec<u8>>", false),
+  ("Key<v2,Local>: Into<[u8;32]>", false),
+  ("Key<v2,Local>: Into<[u8;48]>", false),
+  ("Key<v2,Local>: Into<[u8;64]>", false),
+  ("Key<v2,Local>: Into<Vec<u8>>", false),
+  ("Key<v2,Local>: Into<Box<[u8]>>", false),
+  ("Key<v2,Local>: Into<String>", false),
+  ("Key<v2,Local>: AsRef<[u8]>", false),
+  ("Key<v2,Local>: Borrow<[u8]>", false),
+  ("Key<v2,Local>: Deref", false),
+  ("Key<v2,Local>: ToString", false),
+  ("Key<v2,Local>: Hash", false),
+  ("Key<v2,Local>: LowerHex", false),
+  ("&Key<v2,Local>: Into<Vec<u8>>", false),
+  ("&Key<v2,Local>: IntoIterator", false),
+  ("Key<v2,Secret>: Into<[u8;32]>", false),
+  ("Key<v2,Secret>: Into<[u8;48]>", false),
+  ("Key<v2,Secret>: Into<[u8;64]>", false),
+  ("Key<v2,Secret>: Into<Vec<u8>>", false),
+  ("Key<v2,Secret>: Into<Box<[u8]>>", false),
+  ("Key<v2,Secret>: Into<String>", false),
+  ("Key<v2,Secret>: AsRef<[u8]>", false),
+  ("Key<v2,Secret>: Borrow<[u8]>", false),
+  ("Key<v2,Secret>: Deref", false),
+  ("Key<v2,Secret>: ToString", false),
+  ("Key<v2,Secret>: Hash", false),
+  ("Key<v2,Secret>: LowerHex", false),
+  ("&Key<v2,Secret>: Into<Vec<u8>>", false),
+  ("&Key<v2,Secret>: IntoIterator", false),
+  ("Key<v2,PkeSecret>: Into<[u8;32]>", false),
+  ("Key<v2,PkeSecret>: Into<[u8;48]>", false),
+  ("Key<v2,PkeSecret>: Into<[u8;64]>", false),
+  ("Key<v2,PkeSecret>: Into<Vec<u8>>", false),
+  ("Key<v2,PkeSecret>: Into<Box<[u8]>>", false),
+  ("Key<v2,PkeSecret>: Into<String>", false),
+  ("Key<v2,PkeSecret>: AsRef<[u8]>", false),
+  ("Key<v2,PkeSecret>: Borrow<[u8]>", false),
+  ("Key<v2,PkeSecret>: Deref", false),
+  ("Key<v2,PkeSecret>: ToString", false),
+  ("Key<v2,PkeSecret>: Hash", false),
+  ("Key<v2,PkeSecret>: LowerHex", false),
+  ("&Key<v2,PkeSecret>: Into<Vec<u8>>", false),
+  ("&Key<v2,PkeSecret>: IntoIterator", false),
+  ("SealedToken<v2,Local>: Deref", false),
+  ("SealedToken<v2,Public>: Deref", false),
+  ("SealedToken<v2,Local>: AsRef<Rich>", false),
+  ("SealedToken<v2,Public>: AsRef<Rich>", false),
+  ("SealedToken<v2,Public>: Borrow<Rich>", false),
+  ("SealedToken<v2,Public>: Into<Rich>", false),
+  ("UnsealedToken<v2,Local>: ToString", false),
+  ("UnsealedToken<v2,Public>: Into<String>", false),
+  ("UnsealedToken<v2,Local>: Into<Vec<u8>>", false),
+  ("Key<v3,Local>: Into<[u8;32]>", false),
+  ("Key<v3,Local>: Into<[u8;48]>", false),
+  ("Key<v3,Local>: Into<[u8;64]>", false),
+  ("Key<v3,Local>: Into<Vec<u8>>", false),
+  ("Key<v3,Local>: Into<Box<[u8]>>", false),
+  ("Key<v3,Local>: Into<String>", false),
+  ("Key<v3,Local>: AsRef<[u8]>", false),
+  ("Key<v3,Local>: Borrow<[u8]>", false),
+  ("Key<v3,Local>: Deref", false),
+  ("Key<v3,Local>: ToString", false),
+  ("Key<v3,Local>: Hash", false),
+  ("Key<v3,Local>: LowerHex", false),
+  ("&Key<v3,Local>: Into<Vec<u8>>", false),
+  ("&Key<v3,Local>: IntoIterator", false),
+  ("Key<v3,Secret>: Into<[u8;32]>", false),
+  ("Key<v3,Secret>: Into<[u8;48]>", false),
+  ("Key<v3,Secret>: Into<[u8;64]>", false),
+  ("Key<v3,Secret>: Into<Vec<u8>>", false),
+  ("Key<v3,Secret>: Into<Box<[u8]>>", false),
+  ("Key<v3,Secret>: Into<String>", false),
+  ("Key<v3,Secret>: AsRef<[u8]>", false),
+  ("Key<v3,Secret>: Borrow<[u8]>", false),
+  ("Key<v3,Secret>: Deref", false),
+  ("Key<v3,Secret>: ToString", false),
+  ("Key<v3,Secret>: Hash", false),
+  ("Key<v3,Secret>: LowerHex", false),
+  ("&Key<v3,Secret>: Into<Vec<u8>>", false),
+  ("&Key<v3,Secret>: IntoIterator", false),
+  ("Key<v3,PkeSecret>: Into<[u8;32]>", false),
+  ("Key<v3,PkeSecret>: Into<[u8;48]>", false),
+  ("Key<v3,PkeSecret>: Into<[u8;64]>", false),
+  ("Key<v3,PkeSecret>: Into<Vec<u8>>", false),
+  ("Key<v3,PkeSecret>: Into<Box<[u8]>>", false),
+  ("Key<v3,PkeSecret>: Into<String>", false),
+  ("Key<v3,PkeSecret>: AsRef<[u8]>", false),
+  ("Key<v3,PkeSecret>: Borrow<[u8]>", false),
+  ("Key<v3,PkeSecret>: Deref", false),
+  ("Key<v3,PkeSecret>: ToString", false),
+  ("Key<v3,PkeSecret>: Hash", false),
+  ("Key<v3,PkeSecret>: LowerHex", false),
+  ("&Key<v3,PkeSecret>: Into<Vec<u8>>", false),
+  ("&Key<v3,PkeSecret>: IntoIterator", false),
+  ("SealedToken<v3,Local>: Deref", false),
+  ("SealedToken<v3,Public>: Deref", false),
+  ("SealedToken<v3,Local>: AsRef<Rich>", false),
+  ("SealedToken<v3,Public>: AsRef<Rich>", false),
+  ("SealedToken<v3,Public>: Borrow<Rich>", false),
+  ("SealedToken<v3,Public>: Into<Rich>", false),
+  ("UnsealedToken<v3,Local>: ToString", false),
+  ("UnsealedToken<v3,Public>: Into<String>", false),
+  ("UnsealedToken<v3,Local>: Into<Vec<u8>>", false),
+  ("Key<v3lc,Local>: Into<[u8;32]>", false),
+  ("Key<v3lc,Local>: Into<[u8;48]>", false),
+  ("Key<v3lc,Local>: Into<[u8;64]>", false),
+  ("Key<v3lc,Local>: Into<Vec<u8>>", false),
+  ("Key<v3lc,Local>: Into<Box<[u8]>>", false),
+  ("Key<v3lc,Local>: Into<String>", false),
+  ("Key<v3lc,Local>: AsRef<[u8]>", false),
+  ("Key<v3lc,Local>: Borrow<[u8]>", false),
+  ("Key<v3lc,Local>: Deref", false),
+  ("Key<v3lc,Local>: ToString", false),
+  ("Key<v3lc,Local>: Hash", false),
+  ("Key<v3lc,Local>: LowerHex", false),
+  ("&Key<v3lc,Local>: Into<Vec<u8>>", false),
+  ("&Key<v3lc,Local>: IntoIterator", false),
+  ("Key<v3lc,Secret>: Into<[u8;32]>", false),
+  ("Key<v3lc,Secret>: Into<[u8;48]>", false),
+  ("Key<v3lc,Secret>: Into<[u8;64]>", false),
+  ("Key<v3lc,Secret>: Into<Vec<u8>>", false),
+  ("Key<v3lc,Secret>: Into<Box<[u8]>>", false),
+  ("Key<v3lc,Secret>: Into<String>", false),
+  ("Key<v3lc,Secret>: AsRef<[u8]>", false),
+  ("Key<v3lc,Secret>: Borrow<[u8]>", false),
+  ("Key<v3lc,Secret>: Deref", false),
+  ("Key<v3lc,Secret>: ToString", false),
+  ("Key<v3lc,Secret>: Hash", false),
+  ("Key<v3lc,Secret>: LowerHex", false),
+  ("&Key<v3lc,Secret>: Into<Vec<u8>>", false),
+  ("&Key<v3lc,Secret>: IntoIterator", false),
+  ("Key<v3lc,PkeSecret>: Into<[u8;32]>", false),
+  ("Key<v3lc,PkeSecret>: Into<[u8;48]>", false),
+  ("Key<v3lc,PkeSecret>: Into<[u8;64]>", false),
+  ("Key<v3lc,PkeSecret>: Into<Vec<u8>>", false),
+  ("Key<v3lc,PkeSecret>: Into<Box<[u8]>>", false),
+  ("Key<v3lc,PkeSecret>: Into<String>", false),
+  ("Key<v3lc,PkeSecret>: AsRef<[u8]>", false),
+  ("Key<v3lc,PkeSecret>: Borrow<[u8]>", false),
+  ("Key<v3lc,PkeSecret>: Deref", false),
+  ("Key<v3lc,PkeSecret>: ToString", false),
+  ("Key<v3lc,PkeSecret>: Hash", false),
+  ("Key<v3lc,PkeSecret>: LowerHex", false),
+  ("&Key<v3lc,PkeSecret>: Into<Vec<u8>>", false),
+  ("&Key<v3lc,PkeSecret>: IntoIterator", false),
+  ("SealedToken<v3lc,Local>: Deref", false),
+  ("SealedToken<v3lc,Public>: Deref", false),
+  ("SealedToken<v3lc,Local>: AsRef<Rich>", false),
+  ("SealedToken<v3lc,Public>: AsRef<Rich>", false),
+  ("SealedToken<v3lc,Public>: Borrow<Rich>", false),
+  ("SealedToken<v3lc,Public>: Into<Rich>", false),
+  ("UnsealedToken<v3lc,Local>: ToString", false),
+  ("UnsealedToken<v3lc,Public>: Into<String>", false),
+  ("UnsealedToken<v3lc,Local>: Into<Vec<u8>>", false),
+  ("Key<v4,Local>: Into<[u8;32]>", false),
+  ("Key<v4,Local>: Into<[u8;48]>", false),
+  ("Key<v4,Local>: Into<[u8;64]>", false),
+  ("Key<v4,Local>: Into<Vec<u8>>", false),
+  ("Key<v4,Local>: Into<Box<[u8]>>", false),
+  ("Key<v4,Local>: Into<String>", false),
+  ("Key<v4,Local>: AsRef<[u8]>", false),
+  ("Key<v4,Local>: Borrow<[u8]>", false),
+  ("Key<v4,Local>: Deref", false),
+  ("Key<v4,Local>: ToString", false),
+  ("Key<v4,Local>: Hash", false),
+  ("Key<v4,Local>: LowerHex", false),
+  ("&Key<v4,Local>: Into<Vec<u8>>", false),
+  ("&Key<v4,Local>: IntoIterator", false),
+  ("Key<v4,Secret>: Into<[u8;32]>", false),
+  ("Key<v4,Secret>: Into<[u8;48]>", false),
+  ("Key<v4,Secret>: Into<[u8;64]>", false),
+  ("Key<v4,Secret>: Into<Vec<u8>>", false),
+  ("Key<v4,Secret>: Into<Box<[u8]>>", false),
+  ("Key<v4,Secret>: Into<String>", false),
+  ("Key<v4,Secret>: AsRef<[u8]>", false),
+  ("Key<v4,Secret>: Borrow<[u8]>", false),
+  ("Key<v4,Secret>: Deref", false),
+  ("Key<v4,Secret>: ToString", false),
+  ("Key<v4,Secret>: Hash", false),
+  ("Key<v4,Secret>: LowerHex", false),
+  ("&Key<v4,Secret>: Into<Vec<u8>>", false),
+  ("&Key<v4,Secret>: IntoIterator", false),
+  ("Key<v4,PkeSecret>: Into<[u8;32]>", false),
+  ("Key<v4,PkeSecret>: Into<[u8;48]>", false),
+  ("Key<v4,PkeSecret>: Into<[u8;64]>", false),
+  ("Key<v4,PkeSecret>: Into<Vec<u8>>", false),
+  ("Key<v4,PkeSecret>: Into<Box<[u8]>>", false),
+  ("Key<v4,PkeSecret>: Into<String>", false),
+  ("Key<v4,PkeSecret>: AsRef<[u8]>", false),
+  ("Key<v4,PkeSecret>: Borrow<[u8]>", false),
+  ("Key<v4,PkeSecret>: Deref", false),
+  ("Key<v4,PkeSecret>: ToString", false),
+  ("Key<v4,PkeSecret>: Hash", false),
+  ("Key<v4,PkeSecret>: LowerHex", false),
+  ("&Key<v4,PkeSecret>: Into<Vec<u8>>", false),
+  ("&Key<v4,PkeSecret>: IntoIterator", false),
+  ("SealedToken<v4,Local>: Deref", false),
+  ("SealedToken<v4,Public>: Deref", false),
+  ("SealedToken<v4,Local>: AsRef<Rich>", false),
+  ("SealedToken<v4,Public>: AsRef<Rich>", false),
+  ("SealedToken<v4,Public>: Borrow<Rich>", false),
+  ("SealedToken<v4,Public>: Into<Rich>", false),
+  ("UnsealedToken<v4,Local>: ToString", false),
+  ("UnsealedToken<v4,Public>: Into<String>", false),
+  ("UnsealedToken<v4,Local>: Into<Vec<u8>>", false),
+  ("Key<v4s,Local>: Into<[u8;32]>", false),
+  ("Key<v4s,Local>: Into<[u8;48]>", false),
+  ("Key<v4s,Local>: Into<[u8;64]>", false),
+  ("Key<v4s,Local>: Into<Vec<u8>>", false),
+  ("Key<v4s,Local>: Into<Box<[u8]>>", false),
+  ("Key<v4s,Local>: Into<String>", false),
+  ("Key<v4s,Local>: AsRef<[u8]>", false),
+  ("Key<v4s,Local>: Borrow<[u8]>", false),
+  ("Key<v4s,Local>: Deref", false),
+  ("Key<v4s,Local>: ToString", false),
+  ("Key<v4s,Local>: Hash", false),
+  ("Key<v4s,Local>: LowerHex", false),
+  ("&Key<v4s,Local>: Into<Vec<u8>>", false),
+  ("&Key<v4s,Local>: IntoIterator", false),
+  ("Key<v4s,Secret>: Into<[u8;32]>", false),
+  ("Key<v4s,Secret>: Into<[u8;48]>", false),
+  ("Key<v4s,Secret>: Into<[u8;64]>", false),
+  ("Key<v4s,Secret>: Into<Vec<u8>>", false),
+  ("Key<v4s,Secret>: Into<Box<[u8]>>", false),
+  ("Key<v4s,Secret>: Into<String>", false),
+  ("Key<v4s,Secret>: AsRef<[u8]>", false),
+  ("Key<v4s,Secret>: Borrow<[u8]>", false),
+  ("Key<v4s,Secret>: Deref", false),
+  ("Key<v4s,Secret>: ToString", false),
+  ("Key<v4s,Secret>: Hash", false),
+  ("Key<v4s,Secret>: LowerHex", false),
+  ("&Key<v4s,Secret>: Into<Vec<u8>>", false),
+  ("&Key<v4s,Secret>: IntoIterator", false),
+  ("Key<v4s,PkeSecret>: Into<[u8;32]>", false),
+  ("Key<v4s,PkeSecret>: Into<[u8;48]>", false),
+  ("Key<v4s,PkeSecret>: Into<[u8;64]>", false),
+  ("Key<v4s,PkeSecret>: Into<Vec<u8>>", false),
+  ("Key<v4s,PkeSecret>: Into<Box<[u8]>>", false),
+  ("Key<v4s,PkeSecret>: Into<String>", false),
+  ("Key<v4s,PkeSecret>: AsRef<[u8]>", false),
+  ("Key<v4s,PkeSecret>: Borrow<[u8]>", false),
+  ("Key<v4s,PkeSecret>: Deref", false),
+  ("Key<v4s,PkeSecret>: ToString", false),
+  ("Key<v4s,PkeSecret>: Hash", false),
+  ("Key<v4s,PkeSecret>: LowerHex", false),
+  ("&Key<v4s,PkeSecret>: Into<Vec<u8>>", false),
+  ("&Key<v4s,PkeSecret>: IntoIterator", false),
+  ("SealedToken<v4s,Local>: Deref", false),
+  ("SealedToken<v4s,Public>: Deref", false),
+  ("SealedToken<v4s,Local>: AsRef<Rich>", false),
+  ("SealedToken<v4s,Public>: AsRef<Rich>", false),
+  ("SealedToken<v4s,Public>: Borrow<Rich>", false),
+  ("SealedToken<v4s,Public>: Into<Rich>", false),
+  ("UnsealedToken<v4s,Local>: ToString", false),
+  ("UnsealedToken<v4s,Public>: Into<String>", false),
+  ("UnsealedToken<v4s,Local>: Into<Vec<u8>>", false)
+]
 end PM.Extracted.Impls
